@@ -213,6 +213,8 @@ def main(argv):
                 "length extremes, deletion) and random bytes, x segmentation x MAXMSGSIZE in {-1,0,small,large}, plus exact-limit frames; "
                 "non-trivial = the engine emitted at least one action row; distinct by case JSON")
     C.proof_stage(res, PROP, ["theories/Corr/EngCorr.vo"])
+    from . import optlib
+    optlib.options_stage(res, PROP, [22, 41], n_quick=100, theorems_note='C07_maxmsgsize_option_semantics, C07_handshake_ivl_option_semantics')
     rng = random.Random(seed)
     cases = C.load_corpus(PROP, "eng") + gen_cases(rng, 450 if tier == "quick" else 5000) + limit_cases(rng)
     for c in cases:
